@@ -146,6 +146,13 @@ def templates():
             T('transitive_equality', exists([var('X'), var('Y')], conj(conj(cmp(t, '=', X), f), cmp(Y, '=', t))))
             T('transitive_equality', exists([var('X', 'i'), var('Y')], conj(conj(cmp(XI, '=', t), cmp(Y, '=', t)), f)))
             T('transitive_equality', exists([var('Y')], conj(conj(cmp(X, '=', t), cmp(Y, '=', t)), f)))
+        # every pair of sorts for the two equated variables (disjoint sorts make the conjunction unsatisfiable)
+        for s1 in ('g', 'i', 's'):
+            for s2 in ('g', 'i', 's'):
+                v1, v2 = ({'g': gvar, 'i': ivar, 's': svar}[s1])('X'), ({'g': gvar, 'i': ivar, 's': svar}[s2])('Y')
+                T('transitive_equality_sorts', exists([var('X', s1), var('Y', s2)], conj(conj(cmp(v1, '=', t), cmp(v2, '=', t)), atom('q', v1))))
+                T('transitive_equality_sorts', exists([var('Z'), var('X', s1), var('Y', s2)], conj(conj(cmp(v1, '=', Z), cmp(v2, '=', Z)), atom('q', v1))))
+                T('transitive_equality_sorts', exists([var('X', s1), var('Y', s2)], conj(conj(cmp(t, '=', v2), atom('r', v1, v1)), cmp(v1, '=', t))))
         # one of the two "equalities" is a chained comparison that only starts (or ends) with an `=` link
         for rel, u in (('>', num(7)), ('!=', sym('a')), ('<=', gvar('W'))):
             T('transitive_equality_chain', exists([var('X', 'i'), var('Y', 'i')], conj(conj(cmp(YI, '=', t), cmp(XI, '=', t, rel, u)), atom('r', XI, YI))))
@@ -188,12 +195,39 @@ def rand_compose(rnd, pool, d):
     return (rnd.choice(BIN), rand_compose(rnd, pool, d - 1), rand_compose(rnd, pool, rnd.randrange(d)))
 
 
+def resort(f, name, sort, bound=False):
+    """the same formula with the general bound variable `name` (binder and the occurrences in its scope) given another sort"""
+    tag = f[0] if isinstance(f, tuple) and f else None
+    if tag in ('forall', 'exists'):
+        vs = f[1]
+        if any(str(n) == name and s == 'g' for (n, s) in vs):
+            return (tag, tuple((n, sort if str(n) == name and s == 'g' else s) for (n, s) in vs), resort(f[2], name, sort, True))
+        if any(str(n) == name for (n, s) in vs):
+            return f if not bound else (tag, vs, resort(f[2], name, sort, bound))
+        return (tag, vs, resort(f[2], name, sort, bound))
+    if tag == 'gvar' and bound and str(f[1]) == name:
+        return ({'i': 'ivar', 's': 'svar'}[sort], f[1])
+    if isinstance(f, tuple):
+        return tuple(resort(x, name, sort, bound) if isinstance(x, tuple) else x for x in f)
+    return f
+
+
 def generate(tier, seed):
     rnd = random.Random(seed)
     items = []
     tpl = templates()
     for fam, f in tpl:
         items.append({'family': fam, 'formula': f})
+    # the same templates with a bound general variable re-sorted (symbol / integer): rewrites that compare or merge
+    # variables must respect the sorts
+    for fam, f in tpl:
+        for name in ('X', 'Y'):
+            for sort in ('s', 'i'):
+                if tier == 'quick' and rnd.random() > 0.3:
+                    continue
+                g = resort(f, name, sort)
+                if g != f:
+                    items.append({'family': fam + '/resorted', 'formula': g})
     for lit in harvest_repo_tests():
         items.append({'family': 'repo-unit-tests', 'text': lit})
     pool = [f for _, f in tpl]
